@@ -181,10 +181,17 @@ func oracleC07(r *rig, res *scnResult) {
 				sigDisc, sigReq = "c07-passed-checkpoint-not-enforced", "c07-passed-checkpoint-not-enforced"
 				when = "in the same headers message as the header matching the previous checkpoint (the sync cursor moves only after the message)"
 				res.Info["contradiction-of-passed-checkpoint"] = true
-			} else if h0 < 0 || h0 >= hc {
-				// the checkpoint lies at or below the service's tip: the implementation compares with the sync cursor only
+			} else if h0 < 0 || (h0 >= hc && cpSeenBefore(r, fs, s, hc, hist[k].Seq)) {
+				// the checkpoint lies at or below the service's tip AND its header had reached the service before (the sync
+				// cursor can have moved past it): the implementation compares with the sync cursor only
 				sigDisc, sigReq, when = "c07-passed-checkpoint-not-enforced", "c07-passed-checkpoint-not-enforced", "at or below the service's tip (already passed by sync)"
 				res.Info["contradiction-of-passed-checkpoint"] = true
+			} else if h0 >= hc {
+				// the tip stands at or above the checkpoint height on a branch that itself contradicts the checkpoint (stored
+				// before it was compared), the checkpoint's own header has never reached the service: the cursor still
+				// stands on this checkpoint, the header is compared whatever state it is stored in
+				when = "while that checkpoint was still pending (its header had not reached the service; the tip stands on another contradicting branch)"
+				res.Info["contradiction-at-pending-checkpoint-above-tip"] = true
 			}
 			if !n.closedByRemote() {
 				fail(sigDisc, fmt.Sprintf("node %d delivered a header that differs from the checkpoint at height %d, %s, and is still connected", i, hc, when), "connection closed by the service", "open")
@@ -380,6 +387,34 @@ func storedContradiction(r *rig, t *tree) int {
 	return -1
 }
 
+
+
+// cpSeenBefore: the header of the checkpoint at height hc was in the initial store or had been sent to the service by
+// some node in a headers message before the message with sequence number seq
+func cpSeenBefore(r *rig, fs []nodeFinal, s *scn, hc int, seq int64) bool {
+	for _, c := range s.Cps {
+		if r.tree.height[c] != hc {
+			continue
+		}
+		for _, i := range s.Init {
+			if i == c {
+				return true
+			}
+		}
+		for _, f := range fs {
+			for _, e := range f.Hist {
+				if e.Sent && e.Kind == "headers" && e.Seq < seq {
+					for _, idx := range e.Idx {
+						if idx == c {
+							return true
+						}
+					}
+				}
+			}
+		}
+	}
+	return false
+}
 
 // bestHonest: the honest reachable node with the most work (nil = none)
 func bestHonest(fs []nodeFinal) *nodeFinal {
@@ -710,6 +745,97 @@ func genMismatch(rng *rand.Rand, o genOpts, engine string) *scn {
 }
 
 
+
+// genSecondOffender: two misbehaving nodes contradict the SAME pending checkpoint with different headers. The first
+// one's header X (height = checkpoint height) is stored as the tip before it is compared, the node is dropped. The
+// second node then answers with a sibling Y of X (same height, ties with X: stored STALE) followed by 1..2 more
+// headers: Y differs from the checkpoint that is still pending, so the node must be dropped at Y and asked nothing more.
+// Sometimes a third, honest node connects last.
+func genSecondOffender(rng *rand.Rand, o genOpts) *scn {
+	L := 6 + rng.Intn(o.MaxLen-5)
+	s := &scn{Engine: "legacy", Sched: "serial", Seed: rng.Int63n(1 << 30), Salt: rng.Uint32(), Parents: linearParents(L)}
+	c := 2 + rng.Intn(L-3) // checkpoint height
+	f := c - 1             // both branches fork right below the checkpoint
+	x := len(s.Parents)
+	s.Parents = append(s.Parents, f-1)
+	y := len(s.Parents)
+	s.Parents = append(s.Parents, f-1)
+	ypath := []int{y}
+	for j := 0; j < 1+rng.Intn(2); j++ {
+		s.Parents = append(s.Parents, len(s.Parents)-1)
+		ypath = append(ypath, len(s.Parents)-1)
+	}
+	s.Bits = make([]uint32, len(s.Parents))
+	for i := range s.Bits {
+		s.Bits[i] = defaultBits
+	}
+	s.Cps = []int{c - 1}
+	if f >= 1 && rng.Intn(3) == 0 {
+		s.Init = seq(0, 1+rng.Intn(f))
+	}
+	p1 := append(seq(0, f), x)
+	p2 := append(seq(0, f), ypath...)
+	s.Nodes = append(s.Nodes, scnNode{Path: p1, Pos: len(p1), Cap: 2000, Dir: "out", Honest: false, CloseAt: -1, StallAt: -1})
+	s.Nodes = append(s.Nodes, scnNode{Path: p2, Pos: len(p2), Cap: capAlphabet[1+rng.Intn(len(capAlphabet)-1)], Dir: "out", Honest: false, CloseAt: -1, StallAt: -1})
+	s.Steps = append(s.Steps, scnStep{Kind: "connect", Node: 0}, scnStep{Kind: "run"}, scnStep{Kind: "connect", Node: 1}, scnStep{Kind: "run"})
+	if rng.Intn(2) == 0 {
+		s.Nodes = append(s.Nodes, scnNode{Path: seq(0, L), Pos: L, Cap: 2000, Dir: "out", Honest: true, CloseAt: -1, StallAt: -1})
+		s.Steps = append(s.Steps, scnStep{Kind: "connect", Node: 2}, scnStep{Kind: "run"})
+	}
+	timePasses(s)
+	return s
+}
+
+// genLowWorkFork: the table holds the honest chain up to height k below the pending checkpoint (headers of work 3); the
+// misbehaving node's branch forks below k with EASIER bits (work 1 per header) and reaches the checkpoint height: every
+// header of it is stored STALE, its header at the checkpoint height differs from the checkpoint — the node must be
+// dropped there and asked nothing more, although that header never was the tip.
+func genLowWorkFork(rng *rand.Rand, o genOpts) *scn {
+	L := 5 + rng.Intn(o.MaxLen-4)
+	s := &scn{Engine: "legacy", Sched: "serial", Seed: rng.Int63n(1 << 30), Salt: rng.Uint32(), Parents: linearParents(L)}
+	c := 2 + rng.Intn(L-2)   // checkpoint height 2..L-1
+	k := c - 1 - rng.Intn(2) // stored honest height
+	if k < 1 {
+		k = 1
+	}
+	f := rng.Intn(k) // last common height 0..k-1
+	for 3*(k-f) <= c-f+1 { // the fork (c-f headers, perhaps one more, work 1 each) stays lighter than the k-f honest ones (work 3)
+		f--
+		if f < 0 {
+			f, k = 0, c-1
+			break
+		}
+	}
+	m := c - f + rng.Intn(2)
+	side := []int{}
+	for j := 0; j < m; j++ {
+		par := f - 1
+		if j > 0 {
+			par = len(s.Parents) - 1
+		}
+		s.Parents = append(s.Parents, par)
+		side = append(side, len(s.Parents)-1)
+	}
+	s.Bits = make([]uint32, len(s.Parents))
+	for i := range s.Bits {
+		s.Bits[i] = bitsSmall[2]
+	}
+	for _, i := range side {
+		s.Bits[i] = bitsSmall[0]
+	}
+	s.Cps = []int{c - 1}
+	s.Init = seq(0, k)
+	evilPath := append(seq(0, f), side...)
+	s.Nodes = append(s.Nodes, scnNode{Path: evilPath, Pos: len(evilPath), Cap: capAlphabet[1+rng.Intn(len(capAlphabet)-1)], Dir: "out", Honest: false, CloseAt: -1, StallAt: -1})
+	s.Steps = append(s.Steps, scnStep{Kind: "connect", Node: 0}, scnStep{Kind: "run"})
+	if rng.Intn(2) == 0 {
+		s.Nodes = append(s.Nodes, scnNode{Path: seq(0, L), Pos: L, Cap: 2000, Dir: "out", Honest: true, CloseAt: -1, StallAt: -1})
+		s.Steps = append(s.Steps, scnStep{Kind: "connect", Node: 1}, scnStep{Kind: "run"})
+	}
+	timePasses(s)
+	return s
+}
+
 // genRecover: the recovery after a checkpoint violator. The misbehaving node is the first sync peer; its branch forks
 // below the (single) pending checkpoint and its header X sits EXACTLY at the checkpoint height, delivered as the last
 // header of its answer (cap 2000): X is stored as the tip before it is compared, the node is dropped. The honest node
@@ -766,6 +892,16 @@ var c07Corpus = []struct {
 	{"recover-after-violator", []string{"c06 engine=legacy cpoff=0 cps=4 init= forbid= sched=serial seed=1 salt=7", "tree parents=0~7,3",
 		"node path=0..3,8 pos=5 cap=2000 dir=out honest=0", "node path=0..7 pos=8 cap=2000 dir=out honest=1",
 		"step connect 0", "step run", "step connect 1", "step run"}},
+	// second offender: X (#8) at the pending checkpoint height 5 becomes the tip, its sender is dropped; the second node
+	// answers with the sibling Y (#9, ties: STALE) and one more header: it must be dropped at Y as well
+	{"second-offender", []string{"c06 engine=legacy cpoff=0 cps=4 init= forbid= sched=serial seed=1 salt=9", "tree parents=0~7,3,3,9",
+		"node path=0..3,8 pos=5 cap=2000 dir=out honest=0", "node path=0..3,9,10 pos=6 cap=2000 dir=out honest=0",
+		"step connect 0", "step run", "step connect 1", "step run"}},
+	// low-work fork: the table holds heights 1..2 (work 3 each), the checkpoint at height 3 is pending; the node's fork
+	// from genesis (work 1 each) reaches height 3 entirely STALE: its third header differs from the checkpoint
+	{"low-work-fork", []string{"c06 engine=legacy cpoff=0 cps=2 init=0,1 forbid= sched=serial seed=1 salt=11",
+		"tree parents=0~5,-1,6,7 bits=20400000,20400000,20400000,20400000,20400000,20400000,21008000,21008000,21008000",
+		"node path=6..8 pos=3 cap=2000 dir=out honest=0", "step connect 0", "step run"}},
 }
 
 // genRunPast: two checkpoints c1 < c2 on the honest chain; the misbehaving node's branch matches c1, forks between them
@@ -835,7 +971,7 @@ func genRunPast(rng *rand.Rand, o genOpts, engine string) *scn {
 }
 
 func runC07(c *Ctx) error {
-	c.R.Rule = "scenario = honest chain + a misbehaving scripted node whose (otherwise conformant) chain contains a forbidden header at a random height or contradicts a checkpoint, reply caps 1/2/7/2000 and initial stores chosen so that the offending header lands at every batch position; optional second node pushing descendants of the forbidden header unsolicited; recovery scenarios (the violator's header exactly at the pending checkpoint height as last header of its answer, a stand-by honest node with a long chain and a large cap); nodes that IGNORE the stop hash and run an answer past a matching checkpoint, the contradiction of the next checkpoint arriving with a later answer (or, rarely, the same one); 1..2 honest nodes; both engines; 0..n checkpoints; serial (trace compared with the Lean model) and free-running scheduling; non-trivial = the offending header was actually delivered"
+	c.R.Rule = "scenario = honest chain + a misbehaving scripted node whose (otherwise conformant) chain contains a forbidden header at a random height or contradicts a checkpoint, reply caps 1/2/7/2000 and initial stores chosen so that the offending header lands at every batch position; optional second node pushing descendants of the forbidden header unsolicited; a second offender contradicting the same pending checkpoint with a sibling header that is stored STALE, a low-work fork (easier bits) reaching the pending checkpoint height entirely STALE; recovery scenarios (the violator's header exactly at the pending checkpoint height as last header of its answer, a stand-by honest node with a long chain and a large cap); nodes that IGNORE the stop hash and run an answer past a matching checkpoint, the contradiction of the next checkpoint arriving with a later answer (or, rarely, the same one); 1..2 honest nodes; both engines; 0..n checkpoints; serial (trace compared with the Lean model) and free-running scheduling; non-trivial = the offending header was actually delivered"
 	l := newSyncModel(c)
 	defer l.Close()
 	if c.Replay != "" {
@@ -926,8 +1062,17 @@ func runC07(c *Ctx) error {
 		var s *scn
 		kind := "forbidden"
 		if k := rng.Intn(10); k == 9 {
-			kind = "recover"
-			s = genRecover(rng, o, "legacy")
+			switch rng.Intn(3) {
+			case 0:
+				kind = "recover"
+				s = genRecover(rng, o, "legacy")
+			case 1:
+				kind = "second-offender"
+				s = genSecondOffender(rng, o)
+			default:
+				kind = "low-work-fork"
+				s = genLowWorkFork(rng, o)
+			}
 		} else if k < 2 {
 			kind = "runpast"
 			s = genRunPast(rng, o, engine)
